@@ -765,9 +765,9 @@ func c20Explore(bodies []c20Body, solo []string, baseGlobals map[string]string, 
 
 // c20Worker: `verif worker c20`: explores the combinations it is sent (one JSON line each) with GOMAXPROCS=1.
 func c20Worker(args []string) {
+	base := c20GlobalsDigest() // before the first library call of this process: the pristine package-level state
 	c20Setup()
 	bodies := c20Bodies()
-	base := c20GlobalsDigest()
 	solo := make([]string, len(bodies))
 	for i, b := range bodies {
 		solo[i] = b.Run(c20Pristine.clone(), nil, true)
@@ -798,9 +798,9 @@ func runC20(c *vf.Ctx) {
 	} else {
 		c.SetBudget(6 * 60 * 1e9)
 	}
+	base := c20GlobalsDigest() // before the first library call: a memo filled during set-up must show as a change
 	c20Setup()
 	bodies := c20Bodies()
-	base := c20GlobalsDigest()
 	c.Set("package_level_variables_fingerprinted", len(base))
 	// solo observations (twice: a body must be deterministic on its own)
 	solo := make([]string, len(bodies))
